@@ -84,7 +84,7 @@ theorem invL_frame {s s' : St} {t : Tid} (h : InvL s)
 
 /-- pcs that are in none of the classes `InvL` talks about -/
 def PC.neutral : PC → Bool
-  | .s2 | .s2w | .s3 | .n1 | .n2 | .p0 | .r0 | .zz | .n0 => false
+  | .s2 | .s2w | .s3 | .n1 | .n2 | .p0 | .x0 | .r0 | .zz | .n0 => false
   | _ => true
 
 /-- a step between neutral pcs that touches neither lock nor the wait-set -/
@@ -220,30 +220,45 @@ theorem invL_doS3 {s : St} {t : Tid} (h : InvL s) (hpc : (s.loc t).pc = .s3) :
   exact wake_frame h (t := t) (fun u hu => by simp [hu]) id (fun u hu => .inl hu) (by simp)
     (by simp [hpc])
 
+/-- a thread in the receive region (`p0`, `x0`) moves on to `x0`/`r0`: it still holds the receive lock -/
+theorem invL_recvStay {s s' : St} {t : Tid} (h : InvL s) (hpc : (s.loc t).pc = .p0 ∨ (s.loc t).pc = .x0)
+    (hne : ∀ u, u ≠ t → s'.loc u = s.loc u) (hp' : (s'.loc t).pc = .x0 ∨ (s'.loc t).pc = .r0)
+    (hcl : s'.condLock = s.condLock) (hrl : s'.recvLock = s.recvLock) (hw : s'.waiters = s.waiters) : InvL s' := by
+  have hc := h.not_cond (t := t) (by rcases hpc with e | e <;> rw [e] <;> rfl)
+  have hr := h.has_recv (t := t) (by rcases hpc with e | e <;> rw [e] <;> rfl)
+  have hwp := h.not_waiter (t := t) (by rcases hpc with e | e <;> rw [e] <;> decide)
+  refine invL_frame h (t := t) hne ?_ (.inl hcl) ?_ (.inl hrl) ?_ ?_ (hw ▸ h.waiters_nodup) ?_
+  · rw [hcl]; rcases hp' with e | e <;> rw [e] <;> simpa [PC.holdsCond] using hc
+  · rw [hrl]; rcases hp' with e | e <;> rw [e] <;> simpa [PC.holdsRecv] using hr
+  · rw [hw]; exact fun hm => absurd hm hwp
+  · intro u _ hm; rw [hw] at hm; exact hm
+  · refine wake_frame h (t := t) hne (by rw [hrl]; exact id) (by rw [hw]; exact fun u hu => .inl hu) ?_ ?_
+    · rcases hp' with e | e <;> rw [e] <;> simp
+    · rcases hpc with e | e <;> rw [e] <;> simp
+
 theorem invL_doP0 {s s' : St} {t : Tid} (h : InvL s) (hpc : (s.loc t).pc = .p0)
     (hs : doP0 s t (s.loc t) = some s') : InvL s' := by
-  have hc := h.not_cond (t := t) (by rw [hpc]; rfl)
-  have hr := h.has_recv (t := t) (by rw [hpc]; rfl)
-  have hwp := h.not_waiter (t := t) (by rw [hpc]; decide)
   unfold doP0 at hs
-  cases hch : s.chan with
-  | nil =>
-    rw [hch] at hs; simp only at hs
-    by_cases he : expiredAt (s.loc t).dl s.now = true
-    · rw [if_pos he] at hs; cases hs
-      refine invL_frame h (t := t) (fun u hu => by simp [hu]) (by simpa [PC.holdsCond] using hc)
-        (.inl rfl) (by simpa [PC.holdsRecv] using hr) (.inl rfl)
-        (fun hm => absurd hm hwp) (fun u _ hm => hm) h.waiters_nodup ?_
-      exact wake_frame h (t := t) (fun u hu => by simp [hu]) id (fun u hu => .inl hu) (by simp)
-        (by simp [hpc])
-    · rw [if_neg he] at hs; cases hs
-  | cons f rest =>
-    rw [hch] at hs; simp only at hs; cases hs
-    refine invL_frame h (t := t) (fun u hu => by simp [hu]) (by simpa [PC.holdsCond] using hc)
-      (.inl rfl) (by simpa [PC.holdsRecv] using hr) (.inl rfl)
-      (fun hm => absurd hm hwp) (fun u _ hm => hm) h.waiters_nodup ?_
-    exact wake_frame h (t := t) (fun u hu => by simp [hu]) id (fun u hu => .inl hu) (by simp)
-      (by simp [hpc])
+  split at hs
+  · cases hs
+    exact invL_recvStay h (.inl hpc) (fun u hu => by simp [hu]) (.inl (by simp)) rfl rfl rfl
+  · split at hs
+    · cases hs
+      exact invL_recvStay h (.inl hpc) (fun u hu => by simp [setLoc, hu]) (.inr (by simp [setLoc])) rfl rfl rfl
+    · split at hs
+      · cases hs
+        exact invL_recvStay h (.inl hpc) (fun u hu => by simp [hu]) (.inl (by simp)) rfl rfl rfl
+      · split at hs
+        · cases hs
+          exact invL_recvStay h (.inl hpc) (fun u hu => by simp [hu]) (.inr (by simp)) rfl rfl rfl
+        · cases hs
+
+theorem invL_doX0 {s : St} {t : Tid} (h : InvL s) (hpc : (s.loc t).pc = .x0) :
+    InvL (doX0 s t (s.loc t)) := by
+  unfold doX0
+  split
+  · exact invL_recvStay h (.inr hpc) (fun u hu => by simp [hu]) (.inr (by simp)) rfl rfl rfl
+  · exact invL_recvStay h (.inr hpc) (fun u hu => by simp [setLoc, hu]) (.inr (by simp [setLoc])) rfl rfl rfl
 
 theorem invL_doR0 {s : St} {t : Tid} (h : InvL s) (hpc : (s.loc t).pc = .r0) :
     InvL (doR0 s t (s.loc t)) := by
@@ -325,7 +340,7 @@ theorem invL_run {s s' : St} {t : Tid} (h : InvL s) (hs : stepRun s t = some s')
   cases pc <;> simp only [Option.some.injEq] at hs
   case idle => cases hs
   case c1 => subst hs; unfold doC1; neutral_step
-  case c2 => subst hs; unfold doC2; neutral_step
+  case c2 => subst hs; unfold doC2; split <;> neutral_step
   case c3 => subst hs; unfold doC3; neutral_step
   case w0 => subst hs; unfold doW0; neutral_step
   case s0 => subst hs; unfold doS0; neutral_step
@@ -340,11 +355,18 @@ theorem invL_run {s s' : St} {t : Tid} (h : InvL s) (hs : stepRun s t = some s')
     · cases hs
   case s3 => subst hs; exact invL_doS3 h hpc
   case p0 => exact invL_doP0 h hpc hs
+  case x0 => subst hs; exact invL_doX0 h hpc
   case r0 => subst hs; exact invL_doR0 h hpc
   case n0 => exact invL_doN0 h hpc hs
   case n1 => subst hs; exact invL_doN1 h hpc
   case n2 => subst hs; exact invL_doN2 h hpc
-  case d0 => subst hs; unfold doD0; split <;> neutral_step
+  case d0 =>
+    subst hs; unfold doD0
+    split
+    · neutral_step
+    · split
+      · split <;> neutral_step
+      · neutral_step
   case d1 =>
     unfold doD1 at hs
     split at hs
@@ -409,6 +431,11 @@ theorem invL_step {s s' : St} (a : Actor) (h : InvL s) (hs : step s a = some s')
     · cases hs
   | run t => exact invL_run h hs
   | peer q exc v =>
+    simp only [step] at hs
+    split at hs
+    · cases hs; exact ⟨h.cond_iff, h.recv_iff, h.waiter_pc, h.waiters_nodup, h.wake⟩
+    · cases hs
+  | peerEof =>
     simp only [step] at hs
     split at hs
     · cases hs; exact ⟨h.cond_iff, h.recv_iff, h.waiter_pc, h.waiters_nodup, h.wake⟩
@@ -514,7 +541,7 @@ theorem invD_run {s s' : St} {t : Tid} (h : InvD s) (hs : stepRun s t = some s')
   cases pc <;> simp only [Option.some.injEq, Bool.and_eq_true] at hs hok
   case idle => cases hs
   case c1 => subst hs; unfold doC1; nondisp_step
-  case c2 => subst hs; unfold doC2; nondisp_step
+  case c2 => subst hs; unfold doC2; split <;> nondisp_step
   case c3 => subst hs; unfold doC3; nondisp_step
   case w0 => subst hs; unfold doW0; nondisp_step
   case s0 => subst hs; unfold doS0; nondisp_step
@@ -532,7 +559,12 @@ theorem invD_run {s s' : St} {t : Tid} (h : InvD s) (hs : stepRun s t = some s')
     unfold doP0 at hs
     split at hs
     · cases hs; nondisp_step
-    · split at hs <;> cases hs; nondisp_step
+    · split at hs
+      · cases hs; nondisp_step
+      · split at hs
+        · cases hs; nondisp_step
+        · split at hs <;> cases hs; nondisp_step
+  case x0 => subst hs; unfold doX0; split <;> nondisp_step
   case r0 => subst hs; unfold doR0; nondisp_step
   case n0 => unfold doN0 at hs; split at hs <;> cases hs; nondisp_step
   case n1 => subst hs; unfold doN1; nondisp_step
@@ -540,9 +572,11 @@ theorem invD_run {s s' : St} {t : Tid} (h : InvD s) (hs : stepRun s t = some s')
   case d0 =>
     subst hs; unfold doD0
     split
-    · nondisp_step
     · rename_i f hf
       exact invD_frame h (t := t) (fun u hu => by simp [hu]) (by simp [Loc.ok, hf])
+    · split
+      · split <;> nondisp_step
+      · nondisp_step
   case d1 =>
     unfold doD1 at hs
     split at hs
@@ -601,6 +635,11 @@ theorem invD_step {s s' : St} (a : Actor) (h : InvD s) (hs : step s a = some s')
     · cases hs
   | run t => exact invD_run h hs
   | peer q exc v =>
+    simp only [step] at hs
+    split at hs
+    · cases hs; exact h
+    · cases hs
+  | peerEof =>
     simp only [step] at hs
     split at hs
     · cases hs; exact h
@@ -701,21 +740,35 @@ theorem progress_condWaiter {s : St} (hL : InvL s) (hD : InvD s) {t : Tid}
     rcases hp with e' | e' | e' <;> rw [e] at e' <;> cases e'
   · exact hx
 
-/-- with data in the channel, whoever holds the receive lock can move -/
-theorem enabled_recvHolder {s : St} (hL : InvL s) (hD : InvD s) (hch : s.chan ≠ []) {v : Tid}
+/-- `poll()` returns at once when there is data, when the stream has ended, or when the connection is closed -/
+theorem p0_enabled {s : St} {t : Tid} (hp : (s.loc t).pc = .p0)
+    (hc : s.chan ≠ [] ∨ s.eof = true ∨ s.closed = true) : enabled s t = true := by
+  by_cases hcl : s.closed = true
+  · simp [enabled, stepRun, hp, doP0, hcl]
+  · cases hch : s.chan with
+    | cons f r => simp [enabled, stepRun, hp, doP0, hcl, hch]
+    | nil =>
+      rcases hc with h | h | h
+      · exact absurd hch h
+      · simp [enabled, stepRun, hp, doP0, hcl, hch, h]
+      · exact absurd h hcl
+
+/-- with data in the channel (or the stream ended / the connection closed), whoever holds the receive lock
+can move -/
+theorem enabled_recvHolder {s : St} (hL : InvL s) (hD : InvD s)
+    (hch : s.chan ≠ [] ∨ s.eof = true ∨ s.closed = true) {v : Tid}
     (hv : s.recvLock = some v) : enabled s v = true ∧ (s.loc v).pc ≠ .bS := by
   have hh := (hL.recv_iff v).mpr hv
   refine ⟨?_, fun e => by rw [e] at hh; cases hh⟩
   by_cases hp : (s.loc v).pc = .p0
-  · cases hc : s.chan with
-    | nil => exact absurd hc hch
-    | cons f r => simp [enabled, stepRun, hp, doP0, hc]
+  · exact p0_enabled hp hch
   · apply enabled_of_free hD
     generalize (s.loc v).pc = p at hh hp
     cases p <;> first | rfl | exact absurd rfl hp | cases hh
 
 /-- strong form: the thread that can move is not merely a background thread in `time.sleep` -/
-theorem progress_with_data {s : St} (hL : InvL s) (hD : InvD s) (hc : s.chan ≠ []) (t : Tid)
+theorem progress_with_data {s : St} (hL : InvL s) (hD : InvD s)
+    (hc : s.chan ≠ [] ∨ s.eof = true ∨ s.closed = true) (t : Tid)
     (ht : (s.loc t).pc ≠ .idle) (hb : (s.loc t).pc ≠ .bS) :
     ∃ u, enabled s u = true ∧ (s.loc u).pc ≠ .bS := by
   by_cases hf : (s.loc t).pc.free = true
@@ -729,10 +782,7 @@ theorem progress_with_data {s : St} (hL : InvL s) (hD : InvD s) (hc : s.chan ≠
     · exact progress_condWaiter hL hD (.inl e)
     · exact progress_condWaiter hL hD (.inr (.inl e))
     · exact progress_condWaiter hL hD (.inr (.inr e))
-    · refine ⟨t, ?_, hb⟩
-      cases hch : s.chan with
-      | nil => exact absurd hch hc
-      | cons f r => simp [enabled, stepRun, e, doP0, hch]
+    · exact ⟨t, p0_enabled e hc, hb⟩
     · rcases zz_enabled_or_waiting t e with hen | hm
       · exact ⟨t, hen, hb⟩
       · rcases hL.wake (.inl ⟨t, hm⟩) with h1 | ⟨u, hu | hu⟩
@@ -746,7 +796,35 @@ theorem progress_with_data {s : St} (hL : InvL s) (hD : InvD s) (hc : s.chan ≠
 theorem no_deadlock_with_data_strong {s : St} (h : Reachable s) (hc : s.chan ≠ []) (t : Tid)
     (ht : (s.loc t).pc ≠ .idle) (hb : (s.loc t).pc ≠ .bS) :
     ∃ u, enabled s u = true ∧ (s.loc u).pc ≠ .bS :=
-  progress_with_data (invL_of_reachable h) (invD_of_reachable h) hc t ht hb
+  progress_with_data (invL_of_reachable h) (invD_of_reachable h) (.inl hc) t ht hb
+
+/-- once the peer has closed the stream, or the connection has been closed, no thread inside a call or a
+serving loop can be stuck: some thread other than a sleeping background thread has an enabled step, and
+needs no timeout for it -/
+theorem no_parking_after_eof {s : St} (h : Reachable s) (he : s.eof = true ∨ s.closed = true) (t : Tid)
+    (ht : (s.loc t).pc ≠ .idle) (hb : (s.loc t).pc ≠ .bS) :
+    ∃ u, enabled s u = true ∧ (s.loc u).pc ≠ .bS :=
+  progress_with_data (invL_of_reachable h) (invD_of_reachable h) (.inr he) t ht hb
+
+/-- a thread in the wait-set of a closed connection always has a wake-up on its way: an ENABLED thread that
+is the receive-lock holder (it will release and notify), a pending notifier, or the holder of the condition's
+lock that the notifier is waiting for -/
+theorem waiter_has_waker_after_close {s : St} (h : Reachable s) (hc : s.closed = true) (t : Tid)
+    (ht : t ∈ s.waiters) :
+    ∃ u, enabled s u = true ∧ ((s.loc u).pc.holdsRecv = true ∨ (s.loc u).pc = .n0 ∨ (s.loc u).pc = .n1 ∨
+      (s.loc u).pc.holdsCond = true) := by
+  have hL := invL_of_reachable h
+  have hD := invD_of_reachable h
+  rcases hL.wake (.inl ⟨t, ht⟩) with h1 | ⟨u, hu | hu⟩
+  · cases hr : s.recvLock with
+    | none => exact absurd hr h1
+    | some v => exact ⟨v, (enabled_recvHolder hL hD (.inr (.inr hc)) hr).1, .inl ((hL.recv_iff v).mpr hr)⟩
+  · cases hcl : s.condLock with
+    | none => exact ⟨u, enabled_of_condFree hcl (.inr (.inr hu)), .inr (.inl hu)⟩
+    | some v =>
+      have hv := (hL.cond_iff v).mpr hcl
+      exact ⟨v, enabled_of_free hD (free_of_holdsCond hv), .inr (.inr (.inr hv))⟩
+  · exact ⟨u, enabled_of_free hD (by rw [hu]; rfl), .inr (.inr (.inl hu))⟩
 
 /-- if data is pending in the channel and some thread is inside a call or a serving loop, some thread
 has an enabled step -/
